@@ -73,18 +73,19 @@ def gaps(w, since_tick):
 
 
 def idle_work(arg):
-    ka, tconn, frame, horizon_s = arg
+    ka, tconn, frame, horizon_s = arg[:4]
+    lat = arg[4] if len(arg) > 4 else 1
     viols = {}
-    wit = {"part": "idle", "keep_alive": ka, "connection_timeout": tconn, "frame": frame}
+    wit = {"part": "idle", "keep_alive": ka, "connection_timeout": tconn, "frame": frame, "latency_ticks": lat}
 
     def flag(oracle, sig, msg):
         viols.setdefault((oracle, sig), [0, wit, msg])[0] += 1
 
-    w = World(dt=frame, server_cfg={"setKeepAliveInterval": ka, "setConnectionTimeout": tconn}, start_time=1024.0)
+    w = World(dt=frame, server_cfg={"setKeepAliveInterval": ka, "setConnectionTimeout": tconn}, start_time=1024.0, latency=lat)
     cycle = None
     states = 0
     try:
-        w.run_until_connected(limit=int(3.0 / frame) + 40)
+        w.run_until_connected(limit=int(3.0 / frame) + 40 + 4 * lat)
         w.clients[0].client.setKeepAliveInterval(ka)
         seen = {}
         t0 = w.tickno
@@ -114,7 +115,7 @@ def idle_work(arg):
                 flag("keep-alive-gap", "an idle endpoint never sends anything", k)
     finally:
         w.close()
-    return states, cycle, viols, (ka, tconn, frame)
+    return states, cycle, viols, (ka, tconn, frame, lat)
 
 
 def jitter_scenario(params, ch):
@@ -401,13 +402,16 @@ def run(tier, seed):
                 dyadic = abs(frame * 1024 - round(frame * 1024)) < 1e-12
                 horizon = (30.0 if tier == "quick" else 120.0) if dyadic else (20.0 if tier == "quick" else 60.0)
                 idle_jobs.append((ka, tconn, frame, horizon))
+    # one-way delays above the keep-alive interval (but round trip below every timeout): 0.31 s and 0.19 s
+    for ka, tconn, frame, lat in ((0.1, 1.0, 1.0 / 64, 20), (0.05, 1.0, 1.0 / 64, 12), (0.1, 5.0, 1.0 / 32, 10), (0.5, 5.0, 1.0 / 64, 40)):
+        idle_jobs.append((ka, tconn, frame, 30.0 if tier == "quick" else 120.0, lat))
     if seed:
         k = seed % len(idle_jobs)
         idle_jobs = idle_jobs[k:] + idle_jobs[:k]
     res = core.pmap("checks.c12", "idle_work", idle_jobs)
     idle_states = sum(r[0] for r in res)
-    closed = [{"keep_alive": r[3][0], "timeout": r[3][1], "frame": r[3][2], "transient_ticks": r[1][0], "cycle_ticks": r[1][1]} for r in res if r[1]]
-    open_rows = [{"keep_alive": r[3][0], "timeout": r[3][1], "frame": r[3][2]} for r in res if not r[1]]
+    closed = [{"keep_alive": r[3][0], "timeout": r[3][1], "frame": r[3][2], "latency_ticks": r[3][3], "transient_ticks": r[1][0], "cycle_ticks": r[1][1]} for r in res if r[1]]
+    open_rows = [{"keep_alive": r[3][0], "timeout": r[3][1], "frame": r[3][2], "latency_ticks": r[3][3]} for r in res if not r[1]]
     for r in res:
         fold(r[2])
     # jitter
@@ -477,7 +481,7 @@ def run(tier, seed):
 def replay(witness):
     part = witness.get("part")
     if part == "idle":
-        r = idle_work((witness["keep_alive"], witness["connection_timeout"], witness["frame"], 30.0))
+        r = idle_work((witness["keep_alive"], witness["connection_timeout"], witness["frame"], 30.0, witness.get("latency_ticks", 1)))
         v = r[2]
     elif part == "cut":
         v = cut_work((witness["keep_alive"], witness["connection_timeout"], witness["frame"], witness["phase"], witness["direction"]))[1]
